@@ -436,7 +436,7 @@ def main(argv):
 
     gen_bugs = []           # mistakes of vgen itself
     wf_rejected = collections.OrderedDict()   # signature -> [count, example]
-    wf_total = wf_bad = 0
+    wf_total = wf_bad = skipped_fault_runs = 0
     verdict_mismatch = 0
     table = {cls: collections.Counter() for cls in vgen.FAULT_CLASSES}
     raised_types = {cls: collections.Counter() for cls in vgen.FAULT_CLASSES}
@@ -487,6 +487,11 @@ def main(argv):
         faults = vgen.enumerate_faults(prog)
         for f in faults:
             fault_positions[f["cls"]] += 1
+        if any(v != ("valid", ()) for v in verdicts):
+            # the validator already complains about the unmutated program: its messages would be taken for
+            # the detection of the injected fault
+            skipped_fault_runs += 1
+            continue
         for mutated, info in vgen.sample_faults(prog, rng, k_faults, faults):
             cls = info["cls"]
             row = table[cls]
@@ -554,7 +559,8 @@ def main(argv):
                 for ln in range(lo, hi + 1):
                     print("   %s%4d| %s" % (">" if ln in marks else " ", ln, lines[ln - 1]))
     print()
-    print("FAULT TABLE (sampled mutations; 'pos/prog' = applicable positions per program on average)")
+    print("FAULT TABLE (sampled mutations; 'pos/prog' = applicable positions per program on average; %d programs the"
+          " validator\n does not accept unmutated are left out)" % skipped_fault_runs)
     hdr = "%-36s %5s %8s %8s %8s %7s %8s %7s %8s  %s" % ("class", "n", "invalid", "ACCEPTED", "RAISED", "in-span", "outside", "in-def", "pos/prog", "exceptions")
     print(hdr)
     print("-" * len(hdr))
